@@ -143,13 +143,18 @@ def run_property(prop, tier, replay=None):
             real.append(v)
     rep_dir = os.path.join(VERIF, 'reports', prop)
     os.makedirs(rep_dir, exist_ok=True)
-    if not os.environ.get('VERIF_REPO'):
+    if not os.environ.get('VERIF_REPO') and os.environ.get('VERIF_REPLAY_KEY') is None:
         for fn in os.listdir(rep_dir):
             if fn.endswith('.json'):
                 os.unlink(os.path.join(rep_dir, fn))
     for v, k in known_hit:
         print('KNOWN-FINDING: property=%s %s [%s]' % (prop, k.get('what', v['detail']), v['site']))
     exit_code = 0
+    rk = os.environ.get('VERIF_REPLAY_KEY')
+    if rk is not None:
+        if any(v['key'] == rk for v in uniq):
+            os.environ['VERIF_REPLAY_HIT'] = '1'
+        real = []      # replay mode: the verdict is about the stored instance only
     for i, v in enumerate(real):
         name = ''.join(ch if ch.isalnum() or ch in '._-' else '_' for ch in v['inst'])[:60]
         path = os.path.join(rep_dir, '%s-%d.json' % (name, i))
@@ -283,11 +288,24 @@ def main(argv):
     if len(argv) >= 3 and argv[2] in ('quick', 'thorough'):
         tier = argv[2]
     if '--replay' in argv:
-        # re-evaluate on the current tree and show whether the reported instance still fails
+        # re-evaluate the property on the current tree and report whether the stored violation (by its line-free key) is still there
         rp = argv[argv.index('--replay') + 1]
         with open(rp) as f:
             rep = json.load(f)
-        print('replaying %s.%s (%s)' % (prop, rep.get('inst'), rep.get('detail', '')[:200]))
+        print('replaying %s.%s key=%s' % (prop, rep.get('inst'), rep.get('key', '')[:200]))
+        print('  stored report: %s -- %s' % (rep.get('site'), rep.get('detail', '')[:400]))
+        os.environ['VERIF_NO_EVIDENCE'] = '1'
+        os.environ['VERIF_REPLAY_KEY'] = rep.get('key', '')
+        try:
+            rc = run_property(prop, 'quick')
+        except extract.InfraError as e:
+            sys.stderr.write('INFRASTRUCTURE ERROR (not a verdict): %s\n' % e)
+            return 2
+        still = os.environ.get('VERIF_REPLAY_HIT') == '1'
+        print('replay verdict: the reported violation is %s on the current tree' % ('STILL PRESENT' if still else 'no longer present'))
+        if still:
+            print('VIOLATION property=%s replay=%s' % (prop, rp))
+        return 1 if still else 0
     try:
         return run_property(prop, tier)
     except extract.InfraError as e:
